@@ -4,6 +4,7 @@ import (
 	"fmt"
 	"go/types"
 	"regexp"
+	"sort"
 	"strings"
 
 	"golang.org/x/tools/go/ssa"
@@ -161,10 +162,66 @@ func (c *Ctx) obFollow(what string, f *ssa.Function, trig func(ssa.Instruction) 
 		d := ""
 		if len(v) > 0 {
 			d = fmt.Sprintf("path from %s to the return at %s does not pass any of %v", c.P.InstrPos(t), c.P.InstrPos(v[0].At), disch)
+			if skip == nil && exitOK == nil && c.followedInCallers(f, disch, 0) {
+				// the trigger sits in an unexported helper: each of its callers performs the required event after
+				// the call, before returning and before reading or dispatching another command line
+				v, d = nil, ""
+			}
 		}
 		c.R.Ob(c.siteKey(t, what), c.P.InstrPos(t), len(v) == 0, d)
 	}
 	return len(trigs)
+}
+
+// followedInCallers: f is an unexported top-level helper and at every call site of f the caller passes through one
+// of disch (directly, deferred, or in turn through its own callers) before it returns, with no command line read
+// or dispatched in between.
+func (c *Ctx) followedInCallers(f *ssa.Function, disch []string, depth int) bool {
+	if depth > 2 || f.Parent() != nil || isExported(f) || !inSmtp(f) {
+		return false
+	}
+	callers := c.callersOf(f)
+	if len(callers) == 0 {
+		return false
+	}
+	_, s := c.Std()
+	for _, cs := range callers {
+		cs := cs
+		if _, isGo := cs.(*ssa.Go); isGo {
+			return false
+		}
+		if _, isDefer := cs.(*ssa.Defer); isDefer {
+			return false
+		}
+		g := cs.Parent()
+		v := RunPend(g, PendRule{
+			Trig:   func(in ssa.Instruction) bool { return in == cs },
+			Disch:  c.mustDo(disch...),
+			DeferD: c.deferMustDo(disch...),
+			Forbid: func(in ssa.Instruction) bool {
+				if in == cs {
+					return false
+				}
+				if _, isDefer := in.(*ssa.Defer); isDefer {
+					return false
+				}
+				return hasAny(s.InstrMay(in), append(append([]string{}, lineReads...), "call:(*Conn).handle")...)
+			},
+			AtExit: true,
+		})
+		if len(v) > 0 {
+			onlyExit := true
+			for _, x := range v {
+				if x.Why != "reaches return without the required event" {
+					onlyExit = false
+				}
+			}
+			if !onlyExit || !c.followedInCallers(g, disch, depth+1) {
+				return false
+			}
+		}
+	}
+	return true
 }
 
 // obNever: after every trigger in f, no instruction that may produce one of
@@ -457,8 +514,10 @@ func (c *Ctx) obFollowH(what string, f *ssa.Function, trig func(ssa.Instruction)
 		}
 		if !helperDoes {
 			v = RunPend(f, PendRule{
-				Trig:     func(in ssa.Instruction) bool { return in == t },
-				Disch:    c.mustDo(disch...),
+				Trig: func(in ssa.Instruction) bool { return in == t },
+				Disch: func(in ssa.Instruction) bool {
+					return c.mustDo(disch...)(in) || c.helperDoesUnder(in, disch, H)
+				},
 				DeferD:   c.deferMustDo(disch...),
 				SkipEdge: c.F.SkipUnder(H...),
 				PhiOK:    c.F.PhiFeasible(H...),
@@ -760,4 +819,53 @@ func (c *Ctx) argsAtCallSites(v ssa.Value) []ssa.Value {
 		out = append(out, cc.Args[idx])
 	}
 	return out
+}
+
+// helperDoesUnder: in calls an unexported helper that, under the hypothesis H re-expressed in the helper's own
+// parameters (each argument's description replaced by the parameter it is bound to; atoms that still speak about
+// the caller's parameters are dropped), certainly performs one of the labels.
+func (c *Ctx) helperDoesUnder(in ssa.Instruction, labels []string, H []string) bool {
+	cc := callCommon(in)
+	if cc == nil {
+		return false
+	}
+	if _, isDefer := in.(*ssa.Defer); isDefer {
+		return false
+	}
+	if _, isGo := in.(*ssa.Go); isGo {
+		return false
+	}
+	g := staticCallee(cc)
+	if g == nil || !inSmtp(g) || isExported(g) || g.Blocks == nil || g == in.Parent() {
+		return false
+	}
+	type ad struct {
+		d string
+		i int
+	}
+	var args []ad
+	for i, a := range cc.Args {
+		if _, isK := stripConv(a).(*ssa.Const); isK {
+			continue
+		}
+		args = append(args, ad{describe(a), i})
+	}
+	sort.Slice(args, func(i, j int) bool { return len(args[i].d) > len(args[j].d) })
+	var H2 []string
+	for _, h := range H {
+		tmp := canonAtom(h)
+		for _, a := range args {
+			tmp = strings.ReplaceAll(tmp, a.d, fmt.Sprintf("\x00%d\x00", a.i))
+		}
+		if strings.Contains(tmp, "param") || strings.Contains(tmp, "local:") || strings.Contains(tmp, "alloc:") {
+			continue
+		}
+		for _, a := range args {
+			tmp = strings.ReplaceAll(tmp, fmt.Sprintf("\x00%d\x00", a.i), fmt.Sprintf("param%d", a.i))
+		}
+		H2 = append(H2, tmp)
+	}
+	_, sm := c.Std()
+	gm, gex := sm.MustUnder(g, c.F.SkipUnder(H2...))
+	return gex > 0 && hasAny(gm, labels...)
 }
